@@ -297,7 +297,7 @@ Proof. intros H. unfold cli_is. destruct args; [reflexivity|]. rewrite H. reflex
 
 (** begin marker: "sync_begin" or "retire p" *)
 Lemma step_ev_begin g a tr t e l' :
-  Inv g a tr -> l_w (a t) = WIdle ->
+  Inv g a tr -> ~ holder (l_w (a t)) ->
   is_rlock1 e = false -> is_runlock0 e = false -> is_sync_end e = false -> is_any_dispose e = false ->
   rfields l' = rfields (a t) -> l_w l' = WStart (List.length tr) ->
   (is_sync_begin e = true /\ l_sm l' = Some (List.length tr) /\ l_rm l' = l_rm (a t) \/
@@ -310,7 +310,7 @@ Proof.
   destruct F as (F1 & F2 & F3).
   inv_split.
   - eapply InvRec_ext; [| | | | |exact I1]; auto. intros x. upd_cases x t; auto.
-  - apply InvLock_nonholder; [exact I2|rewrite Hw; intros []|rewrite Hw'; intros []].
+  - apply InvLock_nonholder; [exact I2|exact Hw|rewrite Hw'; intros []].
   - rewrite app_len1. apply InvW_writer' with (n := List.length tr); auto; rewrite Hw'; [exact I|]. cbn. intros i E; inversion E; lia.
   - destruct I4 as [T3 T4 TM0 TR0 SW0 DS0]. constructor.
     + intros r s. upd_cases r t; [rewrite F3|]; intros Hc; destruct (T3 _ s Hc) as (A & B); (split; [apply at_app_l; exact A|]);
@@ -351,15 +351,17 @@ Proof.
 Qed.
 
 (** "sync_end" *)
-Lemma step_ev_sync_end g a tr t i :
-  Inv g a tr -> l_w (a t) = WFin i -> l_sm (a t) = Some i ->
+Lemma step_ev_sync_end g a tr t i i' :
+  Inv g a tr -> l_w (a t) = WFin i' -> l_sm (a t) = Some i -> (i <= i')%nat ->
   Inv g (updA a t (set_w (a t) WIdle)) (tr ++ [(t, EvCli "sync_end" [])]).
 Proof.
-  intros (I1 & I2 & I3 & I4) Hw Hsm. inv_split.
+  intros (I1 & I2 & I3 & I4) Hw Hsm Hii. inv_split.
   - eapply InvRec_ext; [| | | | |exact I1]; auto. same_fields t.
   - apply InvLock_nonholder; [exact I2|rewrite Hw; intros []|intros []].
   - rewrite app_len1. apply InvW_writer with (n := List.length tr); [lia|exact I3|exact I|]. cbn. discriminate.
-  - pose proof (WC _ _ I3 t) as C. rewrite Hw in C. cbn in C.
+  - pose proof (WC _ _ I3 t) as C0. rewrite Hw in C0. cbn in C0.
+    assert (C : forall r, ~ old a i r).
+    { intros r (s & Hs & Hl). apply (C0 r). exists s. split; [exact Hs|lia]. }
     destruct (TM _ _ I4 t i Hsm) as (M1 & M2).
     assert (I4' := I4). destruct I4 as [T3 T4 TM0 TR0 SW0 DS0]. constructor.
     + intros r s. upd_cases r t; cbn; intros Hc; destruct (T3 _ s Hc) as (A & B); (split; [apply at_app_l; exact A|]);
@@ -417,13 +419,13 @@ Proof.
     + intros w q d Hd.
       destruct (at_snoc_inv _ _ _ _ _ _ Hd) as [Hd'|(-> & -> & X)].
       * pose proof (at_lt _ _ _ _ Hd') as Ld.
-        destruct (DS0 w q d Hd') as (k & Hk & Hr & Hall). exists k. split; [exact Hk|]. split; [apply at_app_l; exact Hr|].
+        destruct (DS0 w q d Hd') as (k & w' & Hk & Hr & Hall). exists k, w'. split; [exact Hk|]. split; [apply at_app_l; exact Hr|].
         intros r s Ho. destruct (Hall r s) as (b & Hb & Hat).
         -- eapply open_at_app_inv; eauto. lia.
         -- exists b. split; [exact Hb|]. apply at_app_l; exact Hat.
       * assert (q = p).
         { unfold is_dispose, cli_is in X. cbn in X. apply Z.eqb_eq in X. auto. }
-        subst q. exists i. pose proof (at_lt _ _ _ _ M1) as Li. split; [exact Li|]. split; [apply at_app_l; exact M1|].
+        subst q. exists i, t. pose proof (at_lt _ _ _ _ M1) as Li. split; [exact Li|]. split; [apply at_app_l; exact M1|].
         intros r s Ho. apply open_at_app_inv in Ho; [|lia].
         destruct (old_reader_left a tr r s i t (is_retire p) I4' C Ho M1) as (b & Hb & Hat).
         -- intros e E1 E2. unfold is_retire, is_runlock0, cli_is in *. destruct e as [|n [|x l]]; try discriminate.
